@@ -162,10 +162,10 @@ Definition zip_get (z : zipvec) (idx : N) : outcome N :=
   bind (get (inner z) idx) (fun v =>
   if W64 <=? min_val z + v then Panic else Ok (min_val z + v)).
 
+(* set: max_val = min_val.saturating_add(uintmask) *)
 Definition zip_set (z : zipvec) (idx val : N) : outcome zipvec :=
   if val <? min_val z then Panic
-  else if W64 <=? min_val z + mask (inner z) then Panic
-  else if min_val z + mask (inner z) <? val then Panic
+  else if N.min (W64 - 1) (min_val z + mask (inner z)) <? val then Panic
   else bind (set (inner z) idx (val - min_val z)) (fun v => Ok {| inner := v; min_val := min_val z |}).
 
 Fixpoint zip_set_all (z : zipvec) (i : N) (vals : list N) : outcome zipvec :=
@@ -174,6 +174,7 @@ Fixpoint zip_set_all (z : zipvec) (i : N) (vals : list N) : outcome zipvec :=
   | v :: t => bind (zip_set z i v) (fun z' => zip_set_all z' (i + 1) t)
   end.
 
+(* build_from_usize; the all-equal branch builds its one-bit store directly (UintVecMin0::new(len, 1)) *)
 Definition zip_build_from (src : list N) : outcome zipvec :=
   match src with
   | [] => Ok {| inner := empty; min_val := 0 |}
@@ -181,14 +182,24 @@ Definition zip_build_from (src : list N) : outcome zipvec :=
       let mn := list_min src in
       let mx := list_max src in
       if mn =? mx then
-        if W64 <=? mn + 1 then Panic else
-        bind (zip_new (nlen src) mn (mn + 1)) (fun z => zip_set_all z 0 (map (fun _ => mn) src))
+        bind (new (nlen src) 1) (fun v => zip_set_all {| inner := v; min_val := mn |} 0 (map (fun _ => mn) src))
       else bind (zip_new (nlen src) mn mx) (fun z => zip_set_all z 0 src)
   end.
 
 Definition zip_push_back (z : zipvec) (val : N) : outcome zipvec :=
   if val <? min_val z then Panic
   else bind (push_back (inner z) (val - min_val z)) (fun v => Ok {| inner := v; min_val := min_val z |}).
+
+Fixpoint zip_push_all (z : zipvec) (vals : list N) : outcome zipvec :=
+  match vals with
+  | [] => Ok z
+  | v :: t => bind (zip_push_back z v) (fun z' => zip_push_all z' t)
+  end.
+
+(* ZipIntVec::new(0, mn, mx); resize(0); push_back every value *)
+Definition zip_build_push (mn mx : N) (src : list N) : outcome zipvec :=
+  bind (zip_new 0 mn mx) (fun z =>
+  bind (resize (inner z) 0) (fun v => zip_push_all {| inner := v; min_val := min_val z |} src)).
 
 (* ---------- correspondence: a history of operations on one UintVecMin0 ---------- *)
 (* op codes: 0 new(num,max) 1 set(i,v) 2 get(i) 3 push_back(v) 4 resize(n) 5 clear
